@@ -567,3 +567,26 @@ Definition well_formed_parameter (k : bytes) : Prop :=
     k = parameter_name family members /\
     member_name family = true /\ Forall (fun m => member_name m = true) members /\
     (forallb is_lower_az family = true -> family = s_page).
+
+(** ** 6. The observational equivalence of the comparison: documents up to the order of the
+    members of attributes, relationships and links objects (Go map order) *)
+From Coq Require Import Permutation.
+Definition rel_equiv (x y : bytes * relationship) : Prop :=
+  fst x = fst y /\ Permutation (rel_links (snd x)) (rel_links (snd y)) /\ rel_data (snd x) = rel_data (snd y).
+Definition witem_equiv (x y : witem) : Prop :=
+  w_type x = w_type y /\ w_id x = w_id y /\ Permutation (w_attrs x) (w_attrs y) /\
+  exists l, Permutation (w_rels x) l /\ Forall2 rel_equiv l (w_rels y).
+Definition wdata_equiv (x y : wdata) : Prop :=
+  match x, y with
+  | WAbsent, WAbsent => True
+  | WNull, WNull => True
+  | WOne a, WOne b => witem_equiv a b
+  | WMany a, WMany b => Forall2 witem_equiv a b
+  | _, _ => False
+  end.
+Definition wbody_equiv (x y : wbody) : Prop :=
+  match x, y with
+  | WDoc v d e l, WDoc v' d' e' l' => v = v' /\ wdata_equiv d d' /\ e = e' /\ Permutation l l'
+  | WBareError s, WBareError s' => s = s'
+  | _, _ => False
+  end.
